@@ -4,6 +4,9 @@
   antlist, pol_ordering, center_freq, bandwidth, n_chans,
   products: {'G': [(dump, array (pol, ant) or (chan, pol, ant)) ...], 'B': [...(chan, pol, ant)], 'K': [...(pol, ant)]}
   arrays are nested lists of [re, im] pairs or None (NaN); K arrays hold plain floats / None.
+  parts (optional): {'B': n}  -> "split cal": the stream gets the attribute product_B_parts = n and the solutions
+  live in the sensors product_B0 .. product_B<n-1> (keys 'B0', 'B1', ... of `products`, each with its OWN event
+  list, array (chan_of_part, pol, ant)); a part without a key has no sensor at all.
 build_v4 must be called with archived_override=[stream, 'cal'] so that katdal finds the stream.
 """
 import numpy as np
@@ -47,11 +50,13 @@ def cal_hook(cal, sync_time=1600000000.0, first_timestamp=123.0, int_time=2.0):
         view['center_freq'] = float(cal['center_freq'])
         view['bandwidth'] = float(cal['bandwidth'])
         view['n_chans'] = int(cal['n_chans'])
+        for ptype, n_parts in cal.get('parts', {}).items():
+            view['product_%s_parts' % ptype] = int(n_parts)
         cb = ts.view(ts.join(cbid, 'cal'))
         t0 = sync_time + first_timestamp
         for ptype, events in cal['products'].items():
             for dump, arr in events:
-                if ptype == 'K':
+                if ptype[0] == 'K':
                     value = np.array([[np.nan if v is None else v for v in row] for row in arr], np.float64)
                 else:
                     value = complex_array(arr)
